@@ -19,6 +19,25 @@ pub enum Operator {
 }
 
 impl Operator {
+    /// The priority of the operator: an operator of higher priority binds
+    /// tighter than an operator of lower priority. Operators of equal
+    /// priority group left to right.
+    pub fn priority(&self) -> u8 {
+        match self {
+            Self::Multiply | Self::Divide => 5,
+            Self::Modulo => 4,
+            Self::Plus | Self::Minus => 3,
+            Self::Less
+            | Self::LessOrEqual
+            | Self::Equal
+            | Self::GreaterOrEqual
+            | Self::Greater
+            | Self::NotEqual => 2,
+            Self::And => 1,
+            Self::Or => 0,
+        }
+    }
+
     pub fn is_relational(&self) -> bool {
         matches!(
             self,
